@@ -23,7 +23,7 @@ var big20 = "99999999999999999999"
 var leafSpecs = []leafSpec{
 	{'l', `1`, []SRule{Ru("min", "0"), Ru("min", "1"), Ru("max", "1"), Ru("max", "5.0"), Ru("exclusiveMinimum", "true"), Ru("exclusiveMaximum", "false"),
 		Ru("type", `"integer"`), Ru("const", "true"), Ru("const", "false"), Ru("nullable", "true"), Ru("nullable", "false"),
-		Ru("enum", `[1, 2]`), Ru("enum", `@e`), Ru("or", `["integer", "string"]`), Ru("or", `[{type: "integer", min: 0}, {type: "string"}]`),
+		Ru("enum", `[1, 2]`), Ru("enum", `@e`), Ru("or", `["integer", "string"]`), Ru("or", `[{type: "integer", min: 0}, {type: "string"}]`), Ru("or", `[{type: "enum", enum: [1, "x"]}, {type: "boolean"}]`),
 		Ru("type", `"any"`), Ru("type", `"@a"`), Ru("type", `"mixed"`), Ru("type", `"enum"`)}},
 	{'l', `1.5`, []SRule{Ru("precision", "1"), Ru("precision", "2"), Ru("min", "0.5"), Ru("max", "1.50"), Ru("type", `"float"`), Ru("type", `"decimal"`), Ru("nullable", "true"), Ru("const", "true")}},
 	{'l', `"ab"`, []SRule{Ru("minLength", "0"), Ru("minLength", "2"), Ru("maxLength", "2"), Ru("maxLength", big19), Ru("maxLength", big20), Ru("regex", `"^a"`), Ru("regex", `"a\\.b|ab"`),
